@@ -232,6 +232,56 @@ theorem C07_coinbase_position (H : α → α → α) (root : α) (txs : List (Tx
 
 end sanity
 
+/-! ## the remaining header-bound clauses -/
+
+/-- The size clauses accept exactly: at least one and at most `MaxTxPerBlock` transactions, a header of at most
+    `MaxBlockHeaderSize` bytes and a block of at most `MaxBlockContextSize + MaxBlockHeaderSize` bytes. -/
+theorem C07_size_limits (L : Limits) (numTx hdr blk : Nat) :
+    sizeChecks L numTx hdr blk = none ↔
+      0 < numTx ∧ numTx ≤ L.maxTx ∧ hdr ≤ L.maxHdr ∧ blk ≤ L.maxCtx + L.maxHdr := by
+  unfold sizeChecks
+  constructor
+  · intro h
+    split at h
+    · cases h
+    · split at h
+      · cases h
+      · split at h
+        · cases h
+        · split at h
+          · cases h
+          · omega
+  · intro ⟨h1, h2, h3, h4⟩
+    have a : ¬ numTx = 0 := by omega
+    have b : ¬ numTx > L.maxTx := by omega
+    have c : ¬ hdr > L.maxHdr := by omega
+    have d : ¬ blk > L.maxCtx + L.maxHdr := by omega
+    simp [a, b, c, d]
+
+example : sizeChecks ⟨10000, 1000000, 8000000⟩ 10000 1000000 9000000 = none ∧
+    sizeChecks ⟨10000, 1000000, 8000000⟩ 10001 10 10 = some .tooMany ∧
+    sizeChecks ⟨10000, 1000000, 8000000⟩ 5 1000001 10 = some .hdrBig := by decide
+
+/-- `CheckDuplicateTx`: an accepted block has at most one record-sponsor transaction, no side-chain
+    transaction hash withdrawn twice, no producer owner key, producer node key or CR CID used by two
+    register / update / cancel / unregister transactions, and every such payload is of the announced type. -/
+theorem C07_special_unique (txs : List SpTx) (h : checkDuplicateTx txs {} = none) :
+    (∀ t ∈ txs, t.wellTyped = true) ∧ sponsorCount txs ≤ 1 ∧ (sidesOf txs).Nodup ∧ (ownersOf txs).Nodup ∧
+    (nodesOf txs).Nodup ∧ (cidsOf txs).Nodup := by
+  obtain ⟨a, b, c, d, e, f⟩ := checkDuplicateTx_spec txs {} h
+  have rv : ∀ l : List String, (l.reverse ++ []).Nodup → l.Nodup := by
+    intro l hl
+    rw [List.append_nil] at hl
+    simpa using nodup_reverse' _ hl
+  refine ⟨a, ?_, rv _ (c (by simp)), rv _ (d (by simp)), rv _ (e (by simp)), rv _ (f (by simp))⟩
+  have := b (by simp)
+  simpa using this
+
+/-- non-vacuity: a block registering two producers and a CR passes; reusing the node key does not. -/
+example : checkDuplicateTx [.regProducer true "a" "n1", .updProducer true "b" "n2", .regCR true "c", .sponsor,
+    .withdraw true ["h1", "h2"]] {} = none := by decide
+example : checkDuplicateTx [.regProducer true "a" "n1", .updProducer true "b" "n1"] {} = some .dupNode := by decide
+
 /-- non-vacuity of the acceptance hypotheses: a three-transaction block over the free algebra
     is accepted, and the duplicated-tail variant under the same header is rejected. -/
 example : blockSanityTx (κ := Nat) FreeTree.node
